@@ -128,21 +128,12 @@ Proof. vm_compute. reflexivity. Qed.
 (* ------------------------------------------------------------------------------------ *)
 (** ** composed statements over the regenerated table *)
 
-Lemma filter_true : forall (A : Type) (f : A -> bool) (l : list A) (x : A), In x (filter f l) -> f x = true.
-Proof. intros A f l x H. apply filter_In in H. tauto. Qed.
-
+(* the verdict function applied to the regenerated table: instances of the generic theorems *)
 Theorem no_silent_broadcast_table : forall c e a b, 2 <= length a ->
-  In (c, e) guarded_exact_cells -> spec_shape e a b = None -> ~ can_return FUEL tview c e a b.
-Proof.
-  intros c e a b Ha Hin S.
-  pose proof (filter_true _ exact_guarded (cells exact_entries) (c, e) Hin) as G.
-  exact (no_silent_broadcast_generic FUEL tview c e a b Ha G S).
-Qed.
+  row_exact FUEL (restrict_tensor table) c e = true -> spec_shape e a b = None ->
+  ~ can_return FUEL (restrict_tensor table) c e a b.
+Proof. intros c e a b. exact (no_silent_broadcast_generic FUEL (restrict_tensor table) c e a b). Qed.
 
 Theorem square_only_table : forall c e a b,
-  In (c, e) guarded_square_cells -> lib_is_square a <> Ok true -> ~ can_return FUEL table c e a b.
-Proof.
-  intros c e a b Hin NS.
-  pose proof (filter_true _ square_guarded (cells square_entries) (c, e) Hin) as G.
-  exact (square_only_generic FUEL table c e a b G NS).
-Qed.
+  row_square FUEL table c e = true -> lib_is_square a <> Ok true -> ~ can_return FUEL table c e a b.
+Proof. intros c e a b. exact (square_only_generic FUEL table c e a b). Qed.
